@@ -216,9 +216,12 @@ def tlc_trace(spec_dir, module, cfg_path, timeout=1800):
     rc, out = _tlc(["-workers", "1", "-config", cfg_path, module + ".tla"], spec_dir, timeout,
                    extra_env={"JAVA_TOOL_OPTIONS": os.environ.get("JAVA_TOOL_OPTIONS", "") + " -Xss256m"})
     fails = []
-    for m in re.finditer(r'<<"MONFAIL", "([^"]*)", (\d+), <<"([^"]*)", "([^"]*)">>>>', out):
+    # TLC wraps long tuples over several lines: match across arbitrary whitespace
+    for m in re.finditer(r'<<\s*"MONFAIL",\s*"([^"]*)",\s*(\d+),\s*<<\s*"([^"]*)",\s*"([^"]*)"\s*>>\s*>>', out):
         fails.append((m.group(1), int(m.group(2)), m.group(3), m.group(4)))
-    c = re.search(r'<<"CONSUMED", (\d+)>>', out)
+    if out.count('"MONFAIL"') != len(fails):
+        raise Infra("could not parse every MONFAIL line of the trace validation output (%d of %d)" % (len(fails), out.count('"MONFAIL"')))
+    c = re.search(r'<<\s*"CONSUMED",\s*(\d+)\s*>>', out)
     consumed = int(c.group(1)) if c else 0
     if rc != 0 or "No error has been found" not in out:
         raise Infra("trace validation run of %s failed (TLC error, not a verdict):\n%s" % (module, out[-4000:]))
